@@ -251,6 +251,11 @@ func (c *Variant) AsObject() any {
 //	Parameters:
 //		- value a value to be set
 func (c *Variant) SetAsObject(value any) {
+	// A nil variant pointer holds nothing
+	if v, ok := value.(*Variant); ok && v == nil {
+		value = nil
+	}
+
 	c.value = value
 
 	if value == nil {
